@@ -35,7 +35,13 @@ VARIABLES l,        \* position in Rec
           inline,   \* the run logs payloads and containers byte by byte
           content,  \* ghost: concatenation of the payloads of the successful add calls (inline runs)
           seq,      \* last sequence number seen in the run
-          viol, devs
+          viol,     \* lines of the non-conforming events (the first MaxListed; nviol counts all)
+          nviol,
+          devs      \* finding id -> [n |-> build events it was needed for, first |-> line of the first one]
+
+Fids == {"F01a", "F01b", "F01c", "F01d", "F01e", "F01f"}
+MaxListed == 200
+Flag(v, line) == IF Len(v) < MaxListed THEN Append(v, line) ELSE v
 
 HasB(r) == "b" \in DOMAIN r
 Has(e, f) == f \in DOMAIN e
@@ -110,21 +116,24 @@ JudgeBuild(e) ==
     IN Verdict(seqok /\ contentok /\ (ident \/ identDev) /\ tableOk, fids)
 
 TInit == /\ l = 1 /\ b = B0 /\ phase = "open" /\ inline = FALSE /\ content = <<>> /\ seq = 0
-         /\ viol = <<>> /\ devs = <<>>
+         /\ viol = <<>> /\ nviol = 0 /\ devs = [f \in Fids |-> [n |-> 0, first |-> 0]]
 
 Step ==
   /\ l <= Len(Rec)
   /\ LET e == Rec[l] IN
      IF e.op = "new" THEN
         /\ b' = B0 /\ phase' = "open" /\ inline' = e.inline /\ content' = <<>> /\ seq' = 0
-        /\ UNCHANGED <<viol, devs>>
+        /\ UNCHANGED <<viol, nviol, devs>>
      ELSE IF e.op = "hang" \/ phase # "open" THEN    \* a call that never returned / an event after the program's end
-        /\ viol' = Append(viol, l) /\ phase' = "failed"
+        /\ viol' = Flag(viol, l) /\ nviol' = nviol + 1 /\ phase' = "failed"
         /\ UNCHANGED <<b, inline, content, seq, devs>>
      ELSE IF e.op = "build" THEN
         LET j == JudgeBuild(e) IN
-        /\ viol' = IF j.ok THEN viol ELSE Append(viol, l)
-        /\ devs' = devs \o [i \in 1..Len(j.devs) |-> <<l, j.devs[i]>>]
+        /\ viol' = IF j.ok THEN viol ELSE Flag(viol, l)
+        /\ nviol' = IF j.ok THEN nviol ELSE nviol + 1
+        /\ devs' = [f \in Fids |-> IF \E i \in 1..Len(j.devs) : j.devs[i] = f
+                                   THEN [n |-> devs[f].n + 1, first |-> IF devs[f].n = 0 THEN l ELSE devs[f].first]
+                                   ELSE devs[f]]
         /\ phase' = "built" /\ seq' = e.seq
         /\ UNCHANGED <<b, inline, content>>
      ELSE
@@ -135,11 +144,15 @@ Step ==
            /\ phase' = IF e.res = "ok" THEN "open" ELSE "failed"
            /\ content' = IF e.res = "ok" /\ IsAdd(e) /\ inline THEN content \o e.data ELSE content
            /\ seq' = e.seq
-           /\ viol' = IF resok /\ argsok /\ e.seq = seq + 1 THEN viol ELSE Append(viol, l)
+           /\ viol' = IF resok /\ argsok /\ e.seq = seq + 1 THEN viol ELSE Flag(viol, l)
+           /\ nviol' = IF resok /\ argsok /\ e.seq = seq + 1 THEN nviol ELSE nviol + 1
            /\ UNCHANGED <<inline, devs>>
   /\ l' = l + 1
 
 TNext == Step
 Done == (l = Len(Rec) + 1) =>
-  PrintT(<<"VERDICT", ToJson([events |-> Len(Rec), violations |-> viol, deviations |-> devs])>>)
+  PrintT(<<"VERDICT", ToJson([events |-> Len(Rec), violations |-> viol, nviol |-> nviol,
+                              deviations |-> SetToSeqB({<<devs[f].first, f>> : f \in {g \in Fids : devs[g].n > 0}}),
+                              nF01a |-> devs["F01a"].n, nF01b |-> devs["F01b"].n, nF01c |-> devs["F01c"].n,
+                              nF01d |-> devs["F01d"].n, nF01e |-> devs["F01e"].n, nF01f |-> devs["F01f"].n])>>)
 =============================================================================
